@@ -8,7 +8,7 @@ CONSTANTS Depth
 Sites   == {"include", "includectx", "exec", "execctx", "incif", "incifctx", "incifmissing", "includemissing", "execmissing",
             "incifbroken", "includebroken", "execbroken", "includecomputed", "execctxnil", "includectxnil", "incifctxnil"}
 Shapes  == {"plain", "ext1", "ext2", "ext2r"}   \* ext2r: two levels of extends, the root layout ends with a return of its own
-Returns == {"none", "top", "two", "inif", "inelse", "inrange", "intry", "nested", "thenif", "thentry", "theninclude", "nilret", "incatch", "incatchvar", "afterfailedtry", "retctx"}
+Returns == {"none", "top", "two", "inif", "inelse", "inrange", "intry", "nested", "thenif", "thentry", "theninclude", "nilret", "incatch", "incatchvar", "afterfailedtry", "retctx", "thenrangeelse", "thenrange", "thenifelse"}
 SiteKinds == {"range", "ycont", "tryin", "include", "iflet"}
 
 RetBody(rk) ==
@@ -26,6 +26,10 @@ RetBody(rk) ==
     [] rk = "incatch"     -> <<TryCatchS("ct", <<T("tb"), P("tf", FailE)>>, "", <<Ret("r1", Lit("rv1"))>>), T("c0")>>
     [] rk = "incatchvar"  -> <<TryCatchS("ct", <<P("tf", FailE)>>, "e", <<T("cb"), Ret("r1", Lit("rv1"))>>), T("c0")>>
     [] rk = "afterfailedtry" -> <<Ret("r1", Lit("rv1")), TryS("ct", <<Ret("r2", Lit("rv2")), P("tf", FailE)>>), T("c0")>>
+    \* a return stays the result while later constructs without a return of their own run
+    [] rk = "thenrangeelse" -> <<Ret("r1", Lit("rv1")), RangeElse("cr", "none", "", "", "", ListE("slice", <<>>), <<T("no")>>, <<T("c0")>>)>>
+    [] rk = "thenrange"   -> <<Ret("r1", Lit("rv1")), RangeS("cr", "none", "", "", "", ListE("slice", <<"ra">>), <<T("c0")>>)>>
+    [] rk = "thenifelse"  -> <<Ret("r1", Lit("rv1")), IfElse("ci", Lit("false"), <<T("no")>>, <<T("c0")>>)>>
     [] rk = "nilret"      -> <<Ret("r1", Lit(Nil)), T("c0")>>
     [] rk = "retctx"      -> <<T("c0"), Ret("r1", Ctx)>>          \* what '.' was inside, made visible to exec's caller
 
